@@ -24,6 +24,10 @@ RHS_STRINGS = ["plain", "0x1F", "0o17", "1_000", " lead", "trail ", " ", "", "- 
                "a b", "a b", "  two lead", "end  ", "\t", "x\ty", "key: value # comment", "# only", "!!str x", "*", "&"]
 
 
+import re
+FOLDED_KEEP = re.compile(rb">(?:[1-9]\+|\+[1-9]?)")
+
+
 def rhs_value(rnd):
     k = rnd.random()
     if k < 0.6:
@@ -100,8 +104,15 @@ def check_one(rep, binary, doc, prog, indent):
         rep.inconc({"why": "watchdog on reload", "prog": prog})
         return
     feat = yaml_feature_class(y.out)
+    # A string that is itself a whole result (document root) is printed without its quotes on both routes
+    # (documented unwrapScalar behaviour, pinned by tests): one exact class of its own.
+    root_str = any(isinstance(v, str) for v in v1)
+    ROOT = "C15:reload:root_string_result_printed_unquoted"
     if j2.crashed:
         rep.violation(f"C15:reload:crash:{rc}", f"reload of yq -I{indent} {prog!r} output died rc={j2.rc}", replay)
+        return
+    if j2.rc != 0 and root_str:
+        rep.violation(ROOT, f"yq -I{indent} {prog!r}: a root-level string result is printed raw and the output is rejected on reload; yaml head {y.out[:120]!r}", replay)
         return
     if j2.rc != 0:
         rep.violation(f"C15:reload:rejected:{rc}:I{min(indent, 1)}:{feat}",
@@ -112,13 +123,22 @@ def check_one(rep, binary, doc, prog, indent):
     except (ValueError, UnicodeDecodeError) as e:
         rep.violation(f"C15:reload:unparseable_json:{rc}", f"{e}", replay)
         return
+    if len(v1) != len(v2) and root_str:
+        rep.violation(ROOT, f"yq -I{indent} {prog!r}: {len(v1)} results, one a root-level string printed raw; reloads as {len(v2)} documents", replay)
+        return
     if len(v1) != len(v2):
         rep.violation(f"C15:reload:result_count:{rc}:I{min(indent, 1)}", f"yq -I{indent} {prog!r}: {len(v1)} results, YAML reloads as {len(v2)} documents; yaml head {y.out[:200]!r}", replay)
         return
     for a, b in zip(v1, v2):
+        if not cmp_equal(a, b) and isinstance(a, str):
+            rep.violation(ROOT, f"yq -I{indent} {prog!r}: root-level string result {a[:60]!r} printed raw, reloads as {str(b)[:60]!r}", replay)
+            return
         if not cmp_equal(a, b):
             d = first_diff(a, b)
-            rep.violation(f"C15:reload:value_differs:{rc}:I{min(indent, 1)}:{diff_class(a, b)}",
+            dc = diff_class(a, b)
+            if dc == "str_trailing_newline_count" and FOLDED_KEEP.search(y.out):
+                dc += ":folded_keep_scalar_in_output"
+            rep.violation(f"C15:reload:value_differs:{rc}:I{min(indent, 1)}:{dc}",
                           f"yq -I{indent} {prog!r}: json says vs yaml reloads: {d}; yaml head {y.out[:200]!r}", replay)
             return
     rep.count(f"ok.{rc}")
@@ -175,6 +195,8 @@ def diff_class(a, b):
     if kind == "key":
         return "key_text"
     if t(x) == "str" and t(y) == "str":
+        if x != y and x.rstrip("\n") == y.rstrip("\n"):
+            return "str_trailing_newline_count"
         if x.strip() == y.strip():
             return "str_whitespace_lost"
         if any(ord(c) < 0x20 or ord(c) == 0x7f for c in x):
